@@ -23,6 +23,13 @@ import (
 // c24Render prints view v with a granted height drawn from its declared
 // range and checks the number of lines written.
 func c24Render(t *rapid.T, v consoleui.VerifView, what string, desc string) string {
+	return c24RenderOpt(t, v, what, desc, false)
+}
+
+// c24RenderOpt: mayReject tells that the view state contains values the view
+// documents as not renderable (registers wider than the columns), so an error
+// instead of output is acceptable even for a fixed-height view.
+func c24RenderOpt(t *rapid.T, v consoleui.VerifView, what string, desc string, mayReject bool) string {
 	min, max := v.MinLines(), v.MaxLines()
 	if min < 0 {
 		min = 0
@@ -51,7 +58,12 @@ func c24Render(t *rapid.T, v consoleui.VerifView, what string, desc string) stri
 	}
 	lines := strings.Count(out, "\n")
 	if err != nil {
-		return "" // an error is not a crash; nothing more to check
+		// An error is not a crash. But a view that declares a fixed height and is
+		// granted exactly that height has to write that many lines.
+		if max >= 0 && max <= min && n == min && !mayReject && !strings.HasPrefix(what, "screen") {
+			return fmt.Sprintf("%s: view declares a fixed height of %d lines, was granted %d, but wrote %d lines and failed: %v (%s)", what, min, n, lines, err, desc)
+		}
+		return ""
 	}
 	if lines > n {
 		return fmt.Sprintf("%s: Print(%d) wrote %d lines (declared min %d max %d) (%s)\n%s", what, n, lines, min, max, desc, out)
@@ -71,7 +83,7 @@ func TestC24(t *testing.T) {
 		"(3-70 lines) with the cursor on any line; (b) register view over 0-40 constant registers of widths 1-16 with and "+
 		"without the instruction pointer register; (c) memory view over the memories of C32 with the cursor on any row; "+
 		"(d) the emulation mode view (listing + registers) after 0-5 steps; each rendered with a granted height drawn from "+
-		"[min,max] (min when max<min, [min,min+80] when unbounded), biased to both ends. Oracle: no panic; an error or at "+
+		"[min,max] (min when max<min, [min,min+80] when unbounded), biased to both ends. Oracle: no panic; an error (not for a fixed-height view granted its height, unless it holds registers wider than 8 bytes) or at "+
 		"most the granted number of lines; exactly the declared number for fixed-height views. non-trivial = cursor in the "+
 		"last third of a listing longer than the grant, listing shorter than the minimum, or >=3 registers with the "+
 		"instruction pointer present; distinct by view description")
@@ -114,16 +126,21 @@ func TestC24(t *testing.T) {
 		case 1: // registers
 			st := state.New()
 			n := uniformInt(t, 41, "nregs")
+			wide := false
 			for i := 0; i < n; i++ {
-				w := expr.Width(1 + uniformInt(t, 16, "rw"))
+				w := expr.Width(1 + uniformInt(t, 8, "rw"))
+				if uniformInt(t, 12, "wideReg") == 0 {
+					w = expr.Width(9 + uniformInt(t, 8, "rwWide"))
+					wide = true
+				}
 				st.Regs.Store(expr.Key(fmt.Sprintf("r%d", i)), irsem.GenConst(t, w, "rv"), w)
 			}
 			ip := uniformInt(t, 2, "ip") == 0
 			if ip {
 				st.Regs.Store(expr.IPKey, expr.ConstFromUint[uint64](0x1000), 8)
 			}
-			desc := fmt.Sprintf("%d registers, ip=%v", n, ip)
-			if msg := c24Render(t, emulate.VerifRegView(st), "register view", desc); msg != "" {
+			desc := fmt.Sprintf("%d registers, ip=%v, wider than 8 bytes=%v", n, ip, wide)
+			if msg := c24RenderOpt(t, emulate.VerifRegView(st), "register view", desc, wide); msg != "" {
 				t.Fatalf("%s", msg)
 			}
 			col.Class(fmt.Sprintf("registers/ip=%v", ip))
@@ -166,7 +183,12 @@ func TestC24(t *testing.T) {
 				col.Nontrivial(desc)
 			}
 		default: // emulation mode: listing + registers
-			p := drawRVProgram(t, 30)
+			// a quarter of the programs is tiny (1-3 instructions): listing and
+			// registers together then have a fixed height
+			p := drawRVProgramMin(t, []int{1, 4, 4, 4}[uniformInt(t, 4, "tinyProgram")], 30)
+			if uniformInt(t, 8, "veryTiny") == 0 {
+				p = drawRVProgramMin(t, 1, 3)
+			}
 			ui, _, err := newProgramUI(p)
 			if err != nil {
 				t.Fatalf("%v", err)
